@@ -22,6 +22,7 @@ pub struct RouterCase {
     pub min_receive: Option<u128>,
     pub max_spread: Option<u128>,
     pub receiver_is_other: bool,
+    pub sender_is_poorer: bool,
 }
 
 pub fn deploy_router(case: &RouterCase) -> Option<RouterWorld> {
@@ -73,6 +74,15 @@ pub fn deploy_router(case: &RouterCase) -> Option<RouterWorld> {
             assets: [Asset { info: infos[0].clone(), amount: Uint128::new(d0) }, Asset { info: infos[1].clone(), amount: Uint128::new(d1) }],
             slippage_tolerance: None, receiver: None }, &funds).ok()?;
     }
+    // the alternative receiver (carol) and the sender (bob) hold different balances: one of them parks 3/4 of each asset
+    let poor = if case.sender_is_poorer { "bob" } else { "carol" };
+    for i in 0..3 {
+        match &w.assets[i] {
+            AssetInfo::NativeToken { denom } => { w.app.send_tokens(Addr::unchecked(poor), Addr::unchecked("vaultkeeper"), &[coin(RICH / 4 * 3 + 12345, denom)]).ok()?; }
+            AssetInfo::Token { contract_addr } => { w.app.execute_contract(Addr::unchecked(poor), Addr::unchecked(contract_addr),
+                &Cw20ExecuteMsg::Transfer { recipient: "vaultkeeper".to_string(), amount: Uint128::new(RICH / 32 * 3 + 12345) }, &[]).ok()?; }
+        }
+    }
     for i in 0..3 {
         if case.donate[i] > 0 {
             match &w.assets[i] {
@@ -108,7 +118,7 @@ impl RouterCase {
         json!({"asset_C_is_cw20": self.cw20_c, "pool_fees_protocol_swap_burn": self.fees.iter().map(|f| [f.0.to_string(), f.1.to_string(), f.2.to_string()]).collect::<Vec<_>>(),
                "liquidity": self.liq.iter().map(|l| [l.0.to_string(), l.1.to_string()]).collect::<Vec<_>>(), "hops_pool_dir": self.hops,
                "offer": self.offer.to_string(), "donated_to_router_ABC": self.donate.iter().map(|d| d.to_string()).collect::<Vec<_>>(),
-               "minimum_receive": self.min_receive.map(|m| m.to_string()), "max_spread": self.max_spread.map(|m| m.to_string()), "receiver_is_other": self.receiver_is_other})
+               "minimum_receive": self.min_receive.map(|m| m.to_string()), "max_spread": self.max_spread.map(|m| m.to_string()), "receiver_is_other": self.receiver_is_other, "sender_is_poorer": self.sender_is_poorer})
     }
 }
 
@@ -179,7 +189,7 @@ pub fn gen_router_case(rng: &mut Rng) -> RouterCase {
     let mut donate = [0u128; 3];
     if rng.chance(1, 6) { donate[rng.below(3) as usize] = 1 + rng.below128(scale / 100 + 1); }
     RouterCase { cw20_c: rng.chance(1, 3), fees, liq, hops, offer, donate, min_receive: None,
-                 max_spread: if rng.chance(3, 4) { Some(DEC / 2) } else { Some(*rng.pick(&[DEC / 100, DEC / 10, DEC])) }, receiver_is_other: rng.chance(1, 3) }
+                 max_spread: if rng.chance(3, 4) { Some(DEC / 2) } else { Some(*rng.pick(&[DEC / 100, DEC / 10, DEC])) }, receiver_is_other: rng.chance(1, 2), sender_is_poorer: rng.chance(1, 2) }
 }
 fn fee_triple_small(rng: &mut Rng) -> (u128, u128, u128) {
     match rng.below(4) { 0 => (0, 0, 0), 1 => (DEC / 1000, 3 * DEC / 1000, 0), 2 => (DEC / 100, DEC / 500, DEC / 1000), _ => fee_triple(rng, true) }
